@@ -635,6 +635,8 @@ def fam_receipts(rng, cfg=CFG_A):
                 reg(2), sub(2)]
         ops.append(POLL)       # now the replacement blocks arrive
         ops += [add(1, 4, valid(4, 1)), get(1, 4), add(1, 2, valid(2, 7), tsd=8), get(1, 2), sub(1)]
+        # a re-submission that changes everything BUT the blob (new to_self_delay, hence a new signature; new start block)
+        ops += [mine([]), add(1, 4, valid(4, 1), tsd=9 + k), get(1, 4), mine([]), add(2, 1, valid(1, 2), tsd=1), get(2, 1)]
         out.append(scen("receipts-%d" % k, cfg, ops))
     return out
 
